@@ -168,6 +168,11 @@ func c20Build(thorough bool) *c20Alphabet {
 	// v6 TCP towards 443, this host is the client
 	a.add("t6.syn>", "t6:443", true, true, pkTCP, 45000, 443, c20SYN, c20Out, 80)
 	a.add("t6.synack<", "t6:443", true, false, pkTCP, 443, 45000, c20SYNACK, c20In, 1<<32-1)
+	// v6 TCP from a LOWER (non-common) source port to a higher port: the first packet is classified
+	// "direction remains" although the port heuristic alone would reverse it; a repeated SYN and a later
+	// packet from the same side must still hit the same record
+	a.add("t6lo.syn>", "t6lo:40000", true, true, pkTCP, 1000, 40000, c20SYN, c20In, 66)
+	a.add("t6lo.ack>", "t6lo:40000", true, true, pkTCP, 1000, 40000, c20ACK, c20In, 67)
 	// ESP: no ports, no direction hint
 	a.add("esp4>", "esp4", false, true, pkESP, 0x1234, 0x5678, 0, c20In, 120)
 	a.add("esp4<", "esp4", false, false, pkESP, 0x9abc, 0xdef0, 0, c20Out, 136)
